@@ -22,7 +22,7 @@ FormatErr == {"invalid_start", "invalid_sep", "unequal", "unexpected_end"}
 InitState(nslots, cap) ==
   [cur |-> 1, mode |-> "stream", lim |-> 0, sets |-> [t \in 1..nslots |-> <<>>], ctx |-> {},
    cap |-> cap, hwL |-> 0, hwS |-> [t \in 1..nslots |-> <<>>], setcap |-> [t \in 1..nslots |-> 0],
-   nread |-> 0]
+   nread |-> 0, lcause |-> ""]
 
 \* ---------------------------------------------------------------- comparing records
 \* a: record as logged (may carry more fields); r: record of the chain; j: compare joined lines
@@ -209,7 +209,7 @@ CapViol(s, e) == IF e.cap >= 0 /\ s.cap > 0 /\ e.grow = <<>> /\ e.cap # s.cap
 
 \* ---------------------------------------------------------------- one observed call
 Base(fmt) == IF fmt = "fasta" THEN "C01" ELSE "C02"
-Blame(fmt, s) == IF "mixed" \in s.ctx THEN "C04" ELSE IF "seek" \in s.ctx THEN "C05" ELSE Base(fmt)
+Blame(fmt, s) == IF "takeover" \in s.ctx THEN "C09" ELSE IF "mixed" \in s.ctx THEN "C04" ELSE IF "seek" \in s.ctx THEN "C05" ELSE Base(fmt)
 
 \* greedy match of a batch to records after index lim, in order (limbo rule of C06)
 RECURSIVE LimboMatch(_, _, _)
@@ -225,7 +225,9 @@ JudgeRead(fmt, chain, s, e) ==
       fault == IF e.fault THEN {<<"C14", "records_before_failure">>} ELSE {}
       fab == IF r.k = "rec" /\ ~Member(chain, r, j) THEN {<<"C06", "fabricated_record">>} ELSE {}
   IN
-  CASE r.k \in {"panic", "hang"} -> [viol |-> {<<"C06", r.k>>}, s |-> [s EXCEPT !.mode = "lost"]]
+  \* a call that panics or hangs where the model knows the one result the call has to return has not returned it
+  CASE r.k \in {"panic", "hang"} -> [viol |-> {<<"C06", r.k>>} \cup (IF s.mode \in {"stream", "ended", "failed"} THEN {<<Blame(fmt, s), "no_result">>} ELSE {}),
+                                     s |-> [s EXCEPT !.mode = "lost"]]
     [] s.mode = "stream" /\ r.k = "rec" ->
          LET ok == el.okRec /\ Eq(r, el.rec, j)
              posbad == ok /\ e.op = "next" /\ e.pos # <<>> /\ el.coords /\ e.pos # <<el.line, el.byte>>
@@ -245,7 +247,8 @@ JudgeRead(fmt, chain, s, e) ==
                    \cup (IF kok /\ ~FieldsIn(r, el.errs) THEN {<<"C17", "error_fields">>} ELSE {})
                    \cup (IF kok /\ ~MsgOK(r) THEN {<<"C17", "error_message">>} ELSE {}) \cup ErrViol12(e, r),
           s |-> [s EXCEPT !.mode = IF kok THEN "failed" ELSE "lost"]]
-    [] r.k \in {"io", "buffer_limit"} -> [viol |-> {}, s |-> [s EXCEPT !.mode = "limbo", !.lim = IF s.mode = "stream" THEN s.cur - 1 ELSE s.lim]]
+    [] r.k \in {"io", "buffer_limit"} -> [viol |-> {}, s |-> [s EXCEPT !.mode = "limbo", !.lim = IF s.mode = "stream" THEN s.cur - 1 ELSE s.lim,
+                                                                        !.lcause = IF s.mode = "stream" THEN r.k ELSE @]]
     [] s.mode \in {"ended", "failed"} ->
          IF r.k = "none" THEN [viol |-> {}, s |-> s]
          ELSE [viol |-> {<<Blame(fmt, s), "result_after_end_or_error">>} \cup fab
@@ -256,6 +259,9 @@ JudgeRead(fmt, chain, s, e) ==
          THEN LET c == {i \in (s.lim + 1)..Len(chain) : chain[i].okRec /\ Eq(r, chain[i].rec, j)} IN
               IF c = {} THEN [viol |-> {<<"C06", "record_after_error_not_genuine_or_out_of_order">>}, s |-> [s EXCEPT !.mode = "lost"]]
               ELSE [viol |-> {}, s |-> [s EXCEPT !.lim = Min(c)]]
+         \* a format error returned after an earlier error must still pinpoint a real offending record (C17)
+         ELSE IF r.k \in FormatErr /\ ~(\E i \in 1..Len(chain) : FieldsIn(r, chain[i].errs))
+         THEN [viol |-> {<<"C17", "error_fields_after_earlier_error">>}, s |-> s]
          ELSE [viol |-> {}, s |-> s]
     [] OTHER -> [viol |-> {<<"C06", "unclassified_result">>}, s |-> [s EXCEPT !.mode = "lost"]]
 
@@ -275,7 +281,9 @@ JudgeSet(fmt, chain, s, e) ==
       MustRec(i) == i <= N /\ chain[i].okRec /\ chain[i].errs = {} /\ ~chain[i].okEnd
   IN
   IF e.sets_panic \/ r.k \in {"panic", "hang"}
-  THEN [viol |-> {<<"C06", IF e.sets_panic THEN "iterating_record_set_panicked" ELSE r.k>>}, s |-> [s EXCEPT !.mode = "lost"]]
+  THEN [viol |-> {<<"C06", IF e.sets_panic THEN "iterating_record_set_panicked" ELSE r.k>>}
+                 \cup (IF s.mode \in {"stream", "ended", "failed"} THEN {<<"C04", "no_result">>} ELSE {}),
+        s |-> [s EXCEPT !.mode = "lost"]]
   ELSE
   CASE s.mode = "stream" /\ r.k = "ok" ->
          LET allok == /\ kk >= 1 /\ s.cur + kk - 1 <= N
@@ -310,7 +318,10 @@ JudgeSet(fmt, chain, s, e) ==
                       \cup fabset \cup others,
              s |-> [keep EXCEPT !.mode = IF kok THEN "failed" ELSE "lost"]]
     [] r.k \in {"io", "buffer_limit"} ->
-         [viol |-> fabset \cup others, s |-> [keep EXCEPT !.mode = "limbo", !.lim = IF s.mode = "stream" THEN s.cur - 1 ELSE s.lim]]
+         \* (an exact-count read that is refused half-way has already consumed the records it had collected:
+         \* where the stream continues after that is not specified; a plain set read fails on its first record)
+         [viol |-> fabset \cup others, s |-> [keep EXCEPT !.mode = "limbo", !.lim = IF s.mode = "stream" THEN s.cur - 1 ELSE s.lim,
+                                                            !.lcause = IF s.mode = "stream" /\ e.op = "set" THEN r.k ELSE ""]]
     [] s.mode \in {"ended", "failed"} ->
          [viol |-> {<<"C04", "result_after_end_or_error">>} \cup fabset, s |-> [s EXCEPT !.mode = "lost"]]
     [] s.mode = "limbo" ->
@@ -318,7 +329,10 @@ JudgeSet(fmt, chain, s, e) ==
          THEN LET nl == LimboMatch(chain, batch, s.lim) IN
               IF kk = 0 \/ nl = 0 THEN [viol |-> {<<"C06", "records_after_error_not_genuine_or_out_of_order">>}, s |-> [s EXCEPT !.mode = "lost"]]
               ELSE [viol |-> others, s |-> [keep EXCEPT !.lim = nl]]
-         ELSE [viol |-> fabset \cup others, s |-> keep]
+         ELSE [viol |-> fabset \cup others
+                        \cup (IF r.k \in FormatErr /\ ~(\E i \in 1..N : FieldsIn(r, chain[i].errs))
+                              THEN {<<"C17", "error_fields_after_earlier_error">>} ELSE {}),
+               s |-> keep]
     [] OTHER -> [viol |-> {<<"C06", "unclassified_result">>}, s |-> [s EXCEPT !.mode = "lost"]]
 
 JudgeSeek(fmt, chain, s, e) ==
@@ -345,10 +359,19 @@ Judge(fmt, chain, s, e) ==
                 [] e.op \in {"set", "exact"} -> JudgeSet(fmt, chain, s, e)
                 [] e.op = "seek" -> JudgeSeek(fmt, chain, s, e)
                 [] e.op = "serde_set" -> JudgeSerde(fmt, chain, s, e)
-                [] OTHER -> [viol |-> {}, s |-> s]        \* set_policy: nothing changes
+                \* set_policy: nothing changes - except that a policy installed after a refusal takes over: the
+                \* record that did not fit is due again (C09: "a policy installed in mid-stream takes over without
+                \* disturbing the stream")
+                [] OTHER -> [viol |-> {}, s |-> IF e.op = "set_policy" /\ s.mode = "limbo" /\ s.lcause = "buffer_limit"
+                                                THEN [s EXCEPT !.mode = "stream", !.cur = s.lim + 1, !.lcause = "", !.ctx = @ \cup {"takeover"}] ELSE s]
       needRule == s.mode = "stream" /\ e.op \in {"next", "iter", "set"}
+      \* C18 (the buffer size stays unchanged while records are no larger): also an exact-count read of ONE
+      \* record grows the buffer only if that record does not fit (C09 excludes exact-count reads)
+      needRule18 == s.mode = "stream" /\ (e.op \in {"next", "iter", "set"} \/ (e.op = "exact" /\ e.n = 1))
+      grew18 == IF needRule18 /\ \E i \in 1..Len(e.grow) : e.grow[i].a > 0 /\ ~(ElemLen(chain, s) + 1 > e.grow[i].c)
+                THEN {<<"C18", "buffer_grew_although_record_fits">>} ELSE {}
       env == IF e.op = "serde_set" THEN {}
-             ELSE IoViol(e) \cup GrowViol(s, e, ElemLen(chain, s), needRule) \cup CapViol(s, e)
+             ELSE IoViol(e) \cup GrowViol(s, e, ElemLen(chain, s), needRule) \cup CapViol(s, e) \cup grew18
       cap2 == IF e.cap >= 0 THEN e.cap ELSE CapAfter(s, e)
       ctx2 == core.s.ctx \cup (IF e.op # "serde_set" /\ SrcErrs(e) # {} THEN {"fault"} ELSE {})
                          \cup (IF e.res.k = "buffer_limit" THEN {"limit"} ELSE {})
